@@ -75,6 +75,15 @@ def _held_starts(T, env, b, sa):
             # first blocks carrying the fact
             if not any(T.admission_fact(ctx, p) is not None for p in b.preds()[bb]):
                 starts.append(bb)
+    if not starts:
+        for bb in sorted(b.reachable(0)):
+            if b.blocks[bb]["cleanup"]:
+                continue
+            for f in block_facts(env.ev, ctx, bb):
+                if f[0] == "is_some" and f[2] is True and T.admitting_call(ctx, f[1]) is not None:
+                    if not any(any(g[0] == "is_some" and g[2] is True and g[1] == f[1] for g in block_facts(env.ev, ctx, p))
+                               for p in b.preds()[bb]):
+                        starts.append(bb)
     return starts
 
 
@@ -278,6 +287,12 @@ def rule_live(env, shared):
                     if mk in ("Option::and_then", "Option::map") and t2["args"] and t2["args"][0]["k"] in ("move", "copy") \
                             and t2["args"][0]["place"]["l"] == dl:
                         used_ok = True
+            # or matched on (its discriminant is switched on) with the Some arm continuing
+            if dl is not None and not used_ok:
+                for bj, blk in enumerate(b.blocks):
+                    for st in blk["stmts"]:
+                        if st["k"] == "assign" and st["rv"]["k"] == "discr" and st["rv"]["place"]["l"] == dl:
+                            used_ok = True
             # or returned as is (forwarding adaptors)
             if dl == 0:
                 used_ok = True
